@@ -93,6 +93,9 @@ pub enum Obj {
         /// quote updates (index into the quotes, new rate) applied, one call each, before saving
         #[serde(default)]
         updates: Vec<(u16, Fl)>,
+        /// time of day (seconds, nanoseconds) of the common settlement date-time, if the quotes have one
+        #[serde(default)]
+        settle_time: Option<(u32, u32)>,
     },
     Spline {
         kind: u8,
@@ -190,14 +193,14 @@ fn obj() -> impl Strategy<Value = Obj> {
         1 => named_string().prop_map(Obj::Named),
         2 => any_cal().prop_map(Obj::CalType),
         6 => curve_obj(),
-        4 => (tree_quotes(), proptest::collection::vec((0u8..3, dual_spec()), 11), proptest::option::of(any::<u16>()), 0u8..3, proptest::collection::vec((any::<u16>(), log_uniform(0.01, 200.0)), 0..3)).prop_map(|(mut quotes, kinds, base, state, updates)| {
+        4 => (tree_quotes(), proptest::collection::vec((0u8..3, dual_spec()), 11), proptest::option::of(any::<u16>()), 0u8..3, proptest::collection::vec((any::<u16>(), log_uniform(0.01, 200.0)), 0..3), proptest::option::weighted(0.4, (0u32..86_400, prop_oneof![1 => Just(0u32), 2 => 0u32..1_000_000_000]))).prop_map(|(mut quotes, kinds, base, state, updates, settle_time)| {
             // FX quotes: mantissa-rich positive rates (the generator's log-uniform rates are kept
             // but given random low-order bits so that they need 17 digits)
             for (i, q) in quotes.iter_mut().enumerate() {
                 let bits = q.rate.0.to_bits() ^ (kinds[i % kinds.len()].1.real.0.to_bits() & 0xFFFF_FFFF);
                 q.rate = Fl(f64::from_bits(bits));
             }
-            Obj::Fx { quotes, kinds, base, state, updates }
+            Obj::Fx { quotes, kinds, base, state, updates, settle_time }
         }),
         4 => (0u8..3, knot_spec(), proptest::option::weighted(0.7, proptest::collection::vec(dual_spec(), 30))).prop_map(|(kind, knots, coeffs)| Obj::Spline { kind, knots, coeffs }),
         1 => (tree_quotes(), 0u8..3, dual_spec()).prop_map(|(q, kind, content)| Obj::FxRate { q: q[0].clone(), kind, content }),
@@ -573,7 +576,10 @@ impl C16 {
                     }
                 }
             }
-            Obj::Fx { quotes, kinds, base, state, updates } => {
+            Obj::Fx { quotes, kinds, base, state, updates, settle_time } => {
+                // settlement date-times may carry a time of day down to the nanosecond (datetime.now())
+                let st = |d: i64| -> chrono::NaiveDateTime { let (s, n) = settle_time.unwrap_or((0, 0)); day_to_ndt(d) + chrono::Duration::seconds(s as i64) + chrono::Duration::nanoseconds(n as i64) };
+                v.label_if(settle_time.map_or(false, |t| t.1 != 0) && quotes.iter().any(|q| q.settle.is_some()), "fx:sub-second-settlement");
                 v.label("type:FXRates");
                 v.nt(true);
                 let nodes = model_valid(quotes, None).1;
@@ -596,7 +602,7 @@ impl C16 {
                             _ if any2 => 2,
                             _ => 1,
                         };
-                        FXRate::try_new(CCYS[q.lhs as usize % 12], CCYS[q.rhs as usize % 12], c.number(kind), q.settle.map(day_to_ndt)).expect("fx rate")
+                        FXRate::try_new(CCYS[q.lhs as usize % 12], CCYS[q.rhs as usize % 12], c.number(kind), q.settle.map(st)).expect("fx rate")
                     })
                     .collect();
                 v.label_if(kinds.iter().take(quotes.len()).any(|k| k.0 % 3 != 0), "fx:dual-quotes");
@@ -612,7 +618,7 @@ impl C16 {
                 // a market that has lived: quotes updated (as plain floats) before it is saved
                 for (i, r) in updates {
                     let q = &quotes[pick(*i, quotes.len())];
-                    let newq = FXRate::try_new(CCYS[q.lhs as usize % 12], CCYS[q.rhs as usize % 12], Number::F64(r.0), q.settle.map(day_to_ndt)).expect("fx rate");
+                    let newq = FXRate::try_new(CCYS[q.lhs as usize % 12], CCYS[q.rhs as usize % 12], Number::F64(r.0), q.settle.map(st)).expect("fx rate");
                     match catch(|| fx.update(vec![newq])) {
                         Ok(Ok(())) => {}
                         Ok(Err(_)) => {
@@ -806,11 +812,11 @@ impl Property for C16 {
         vec![Stage::random("objects", tier.pick(40_000, 3_000_000), || obj().prop_map(|obj| Case { obj }))]
     }
     fn rule(&self) -> String {
-        "random objects of every serialisable type: Dual / Dual2 (any finite doubles incl. raw bit patterns, subnormals, 17-digit values; 0-6 names incl. unicode and characters that need JSON escaping), plain / combined / named calendars and the calendar container, curves of all five rules plus the null interpolator x derivative orders 0/1/2 x three calendar kinds (generic struct and the Python-facing wrapper), FX markets (float / first-order / second-order quotes, with and without settlement, any base, saved in any derivative order, freshly built or after 1-2 quote updates), splines of the three element types with and without coefficients, FX rates, currencies, the number container and the small enums; each through every path that exists for it: direct JSON (JSON trait or serde_json), the tagged from_json entry point (hook), bincode. Oracle: load(save(x)) == x with the type's own equality AND a per-type query set answered bit-identically (values, by-name arrays, business/settlement days around every holiday, curve look-ups and index values, all n*n rates, spline values); named calendars must serialise to their name only and FX markets to quotes + currencies only; FX markets are compared with both sides at first order and their rates must agree (1e-12) in the saved state. Non-trivial: the object holds a double needing >= 16 significant digits, a name needing escaping, or is a type rebuilt on loading.".into()
+        "random objects of every serialisable type: Dual / Dual2 (any finite doubles incl. raw bit patterns, subnormals, 17-digit values; 0-6 names incl. unicode and characters that need JSON escaping), plain / combined / named calendars and the calendar container, curves of all five rules plus the null interpolator x derivative orders 0/1/2 x three calendar kinds (generic struct and the Python-facing wrapper), FX markets (float / first-order / second-order quotes, with and without settlement - a date or a date-time down to the nanosecond -, any base, saved in any derivative order, freshly built or after 1-2 quote updates), splines of the three element types with and without coefficients, FX rates, currencies, the number container and the small enums; each through every path that exists for it: direct JSON (JSON trait or serde_json), the tagged from_json entry point (hook), bincode. Oracle: load(save(x)) == x with the type's own equality AND a per-type query set answered bit-identically (values, by-name arrays, business/settlement days around every holiday, curve look-ups and index values, all n*n rates, spline values); named calendars must serialise to their name only and FX markets to quotes + currencies only; FX markets are compared with both sides at first order and their rates must agree (1e-12) in the saved state. Non-trivial: the object holds a double needing >= 16 significant digits, a name needing escaping, or is a type rebuilt on loading.".into()
     }
     fn floors(&self, tier: Tier) -> Vec<Floor> {
         let m = tier.pick(300u64, 10_000);
-        ["type:Dual", "type:Dual2", "type:Cal", "type:UnionCal", "type:NamedCal", "type:CalType", "type:CurveDF", "type:Curve(wrapper)", "type:FXRates", "type:PPSplineF64", "type:PPSplineDual", "type:PPSplineDual2", "type:FXRate", "type:Ccy", "type:Number", "type:enums", "floats:17-digit", "curve:order0", "curve:order1", "curve:order2", "fx:dual-quotes", "fx:saved-in-order0", "fx:saved-in-order2", "fx:updated-before-saving", "spline:unsolved"]
+        ["type:Dual", "type:Dual2", "type:Cal", "type:UnionCal", "type:NamedCal", "type:CalType", "type:CurveDF", "type:Curve(wrapper)", "type:FXRates", "type:PPSplineF64", "type:PPSplineDual", "type:PPSplineDual2", "type:FXRate", "type:Ccy", "type:Number", "type:enums", "floats:17-digit", "curve:order0", "curve:order1", "curve:order2", "fx:dual-quotes", "fx:saved-in-order0", "fx:saved-in-order2", "fx:updated-before-saving", "fx:sub-second-settlement", "spline:unsolved"]
             .iter()
             .map(|l| Floor { label: l, min: m })
             .collect()
